@@ -1,8 +1,8 @@
 ---------------------------- MODULE MC_AmpSelection ----------------------------
 (* Bounded instance for C10.  Every initial state is one selection case: a library of 1..MaxLib fixed-gain models  *)
 (* drawn from a catalogue spanning two gain ranges, p_max below / above the required power, two noise figures,       *)
-(* plain / Raman / narrow-band models and the list memberships (own variety list, ROADM restriction, allowed for     *)
-(* design); a context = position (booster / inline / preamp), fibre below / above the Raman limit, own list and      *)
+(* plain / Raman / narrow-band / exactly-design-band models and the list memberships (own variety list, ROADM restriction, allowed for     *)
+(* design); a context = position (booster / inline / preamp), fibre below / above / partly above the Raman limit, own list and      *)
 (* ROADM list present or not, and a required gain half a dB off every capability boundary of the library.           *)
 (* For fixed-gain models the noise figure at the required gain is nf0 + max(0, gmin - g) (input padding): exact.     *)
 (*                                                                                                                  *)
@@ -22,18 +22,21 @@ BandMin == 193000000                    \* design band 193.0 - 193.5 THz (MHz)
 BandMax == 193500000
 
 \* rng: 1 = gain 15..20 dB, 2 = gain 18..26 dB; pw: 0 = p_max 9.5 dBm (too low), 1 = 10.5 dBm; sp: 0 plain, 1 Raman,
-\* 2 narrow band; fl: 1 = (own, rdm, alw), 2 = (rdm), 3 = (alw), 4 = (own), 5 = ()
+\* 2 narrow band (does not cover the design band), 3 band EQUAL to the design band (covers it: edges coincide); fl: 1 = (own, rdm, alw), 2 = (rdm), 3 = (alw), 4 = (own), 5 = ()
 M(rng, pw, nf0, sp, fl) ==
     [id |-> rng * 10000 + pw * 1000 + nf0 * 100 + sp * 10 + fl,
      gmin |-> IF rng = 1 THEN cdB(1500) ELSE cdB(1800), flat |-> IF rng = 1 THEN cdB(2000) ELSE cdB(2600),
      pmax |-> IF pw = 0 THEN cdB(950) ELSE cdB(1050), nf0 |-> cdB(100) * nf0, nf |-> 0, raman |-> (sp = 1),
-     fmin |-> IF sp = 2 THEN 193200000 ELSE 191275000, fmax |-> 196125000,
+     fmin |-> IF sp = 2 THEN 193200000 ELSE IF sp = 3 THEN BandMin ELSE 191275000,
+     fmax |-> IF sp = 3 THEN BandMax ELSE 196125000,
      own |-> fl \in {1, 4}, rdm |-> fl \in {1, 2}, alw |-> fl \in {1, 3}]
 
 Core == {M(1, 1, 5, 0, 1), M(1, 1, 6, 0, 1), M(2, 1, 5, 0, 3), M(2, 1, 6, 0, 2), M(1, 0, 5, 0, 1), M(1, 1, 5, 1, 1),
          M(1, 1, 5, 2, 1), M(2, 0, 6, 0, 3), M(1, 1, 4, 0, 4), M(2, 1, 6, 1, 3), M(2, 1, 4, 0, 1), M(2, 1, 6, 2, 2),
-         M(1, 1, 9, 0, 1)}
-Wide == {M(rng, pw, nf0, sp, fl) : rng \in {1, 2}, pw \in {0, 1}, nf0 \in {5, 6}, sp \in {0, 1, 2}, fl \in {1, 2, 3, 5}}
+         M(1, 1, 9, 0, 1),
+         M(1, 1, 4, 3, 1),          \* quiet, band equal to the design band
+         M(1, 0, 4, 1, 1)}          \* quiet Raman model whose p_max is below the required power
+Wide == {M(rng, pw, nf0, sp, fl) : rng \in {1, 2}, pw \in {0, 1}, nf0 \in {5, 6}, sp \in {0, 1, 2, 3}, fl \in {1, 2, 3, 5}}
 
 Libs == {l \in SUBSET Core : Cardinality(l) \in 1..MaxLib}
           \cup (IF WidePairs THEN {{a} : a \in Wide} \cup {{a, b} : a \in Core, b \in Wide} ELSE {})
@@ -47,16 +50,24 @@ GSet(l) == {cdB(1950)} \cup
 BOOSTER == 0
 INLINE  == 1
 PREAMP  == 2
-Ctx(l, g, pos, fibreOK, useOwn, useRdm) ==
-    [g |-> g, p |-> PReq, ext |-> Ext, pos |-> pos, useOwn |-> useOwn, useRdm |-> useRdm, fibreOK |-> fibreOK,
+\* fibre in front of the amplifier: 0 = loss coefficient 0.2 dB/km, 1 = 0.3 dB/km, 2 = frequency dependent, 0.24 dB/km on
+\* most of the band and 0.30 dB/km at its lower end (the Raman limit is 0.25 dB/km: not below it on the whole band).
+\* lossCoef is the largest coefficient over the band, lossCoefRef the one at the reference frequency (sets the length).
+FIBRE_OK == 0
+FIBRE_LOSSY == 1
+FIBRE_MIXED == 2
+Ctx(l, g, pos, fibre, useOwn, useRdm) ==
+    [g |-> g, p |-> PReq, ext |-> Ext, pos |-> pos, useOwn |-> useOwn, useRdm |-> useRdm, fibre |-> fibre,
      hasOwn |-> useOwn /\ \E a \in l : a.own,
      hasRdm |-> useRdm /\ pos # INLINE /\ \E a \in l : a.rdm,
      bfmin |-> BandMin, bfmax |-> BandMax,
-     prevFiber |-> pos # BOOSTER, lossCoef |-> IF fibreOK THEN 200000 ELSE 300000, ramanLimit |-> 250000]
+     prevFiber |-> pos # BOOSTER, lossCoef |-> IF fibre = FIBRE_OK THEN 200000 ELSE 300000,
+     lossCoefRef |-> IF fibre = FIBRE_OK THEN 200000 ELSE IF fibre = FIBRE_LOSSY THEN 300000 ELSE 240000,
+     ramanLimit |-> 250000]
 
 AtGain(l, g) == {[a EXCEPT !.nf = a.nf0 + MaxI(0, a.gmin - g)] : a \in l}
 
-Positions == {<<BOOSTER, TRUE>>, <<INLINE, TRUE>>, <<INLINE, FALSE>>, <<PREAMP, TRUE>>, <<PREAMP, FALSE>>}
+Positions == {<<BOOSTER, 0>>, <<INLINE, 0>>, <<INLINE, 1>>, <<INLINE, 2>>, <<PREAMP, 0>>, <<PREAMP, 1>>, <<PREAMP, 2>>}
 \* initial states are enumerated by nested quantification (a set of all cases would be normalised at great cost)
 MCInit == /\ \E l \in Libs : \E g \in GSet(l) : \E pf \in Positions : \E uo \in BOOLEAN : \E ur \in BOOLEAN :
                 case = [lib |-> AtGain(l, g), c |-> Ctx(l, g, pf[1], pf[2], uo, ur)]
@@ -93,8 +104,10 @@ OpenCase(lib, c) == \E a \in Permitted(lib, c) : OnlyBelowMinGain(a, c, 0) /\
                         \A b \in Admissible(lib, c) : a.nf < b.nf
 
 Spread == (case.c.g \div 500000) + case.c.pos * 3 + (IF case.c.useOwn THEN 5 ELSE 0) + (IF case.c.useRdm THEN 11 ELSE 0)
-            + (IF case.c.fibreOK THEN 1 ELSE 0) + SumFun([a \in case.lib |-> a.id % 9973], case.lib)
-Emit == stage # "start" \/ Spread % EmitStride # 0
+            + case.c.fibre + SumFun([a \in case.lib |-> a.id % 9973], case.lib)
+\* cases in which no permitted model is capable (membership only) are sampled four times more sparsely
+Stride == IF CapableSet(case.lib, case.c, 0) = {} THEN 4 * EmitStride ELSE EmitStride
+Emit == stage # "start" \/ Spread % Stride # 0
           \/ PrintT("@@" \o ToJson([lib |-> case.lib, c |-> case.c,
                                     adm |-> {a.id : a \in Admissible(case.lib, case.c)},
                                     mayRefuse |-> CapableSet(case.lib, case.c, 0) = {},
